@@ -131,6 +131,7 @@ func runCheck(repo, verif, prop, tier string, workers int, verbose bool) int {
 		return 2
 	}
 	eng.specs = loadSpecs(repo, filepath.Join(verif, "contracts-lib"))
+	eng.verifDir = verif
 	timeout := 10
 	if tier == "thorough" {
 		timeout = 60
